@@ -2,7 +2,7 @@
    any operation sequence.  Statements only; every proof is `exact <lemma>`. *)
 From Coq Require Import ZArith List Bool Lia.
 From Sky Require Import Result PyList G_table M_Table S_Table S_TableInterp P_TableBase P_TableOps P_TableOps2 P_TableOps3
-  P_TableCtor P_Table P_TableRefine P_TableThm P_TableClosed P_TableFull P_TableRows.
+  P_TableCtor P_Table P_TableRefine P_TableThm P_TableClosed P_TableFull P_TableRows P_TableFindings.
 Import ListNotations.
 Open Scope Z_scope.
 
@@ -285,3 +285,57 @@ Theorem C16_keep_none_keeps_all : forall src length conv exc copy, 0 <= length -
     Ok (mkat (map (conv1 conv exc) src) (match src with [] => 0 | _ => length end) false).
 Proof. exact keep_none_keeps_all. Qed.
 Print Assumptions C16_keep_none_keeps_all.
+
+(* ================================================================================
+   WHY THE REMAINING GUARDS ARE NEEDED (witnesses) *)
+
+(* (open findings C16-zero-field-length / C16-zero-field-selection) A table WITHOUT fields keeps its
+   length (remove_field of the last field: len 5), but its copy, a constructor call whose keep_fields
+   filters everything and its selections have length 0, and an index 99 is not noticed.  Hence
+   the guards `names_of _ <> []` of C16_copy_refines / C16_select_refines. *)
+Theorem C16_zero_field_length_refuted :
+  Forall op_wf zf_ops
+  /\ map fst (run_obs empty_world zf_ops) = [Done; Done; Done; Done; Done]
+  /\ map (fun o => (fnl o, olen o)) (wobjs (run empty_world zf_ops)) = [([], 5); ([], 0); ([], 0); ([], 0)].
+Proof. exact zero_field_length_refuted. Qed.
+Print Assumptions C16_zero_field_length_refuted.
+
+(* (open finding C16-colliding-rename) a renaming whose result has a duplicate name loses a column
+   without an exception.  Hence the duplicate-freeness hypotheses of C16_rename_closed; the
+   interpreter's s_rename is defined on collisions only by "what the code does". *)
+Theorem C16_rename_collision_refuted :
+  exists t conv t', NoDup (anames t) /\ NoDup (map fst conv)
+    /\ s_rename t conv true = Ok t' /\ (length (acols t') < length (acols t))%nat.
+Proof. exact rename_collision_refuted. Qed.
+Print Assumptions C16_rename_collision_refuted.
+
+(* (by design, NOT a finding) `t1[n] = t0[m]` stores the column array of one table into another:
+   the tables then share a location, an in-place assignment to t0 changes t1, and the world is
+   no longer the value interpreter's world.  C16_inv / C16_fresh / C16_writes_do_not_cross /
+   C16_full_refinement therefore quantify over op_wf sequences, and op_wf excludes OSetItemFrom:
+   they are statements about callers that hand in arrays of their own. *)
+Theorem C16_alias_refuted :
+  map fst (run_obs empty_world alias_ops) = [Done; Done; Done; Done; Done]
+  /\ (exists o0 o1 l, nth_error (wobjs (run empty_world alias_ops)) 0 = Some o0
+        /\ nth_error (wobjs (run empty_world alias_ops)) 1 = Some o1
+        /\ In l (obj_locs o0) /\ In l (obj_locs o1))
+  /\ map acols (absw (run empty_world alias_ops))
+       = [[(0, mkbuf 2 [8; 9])]; [(0, mkbuf 2 [8; 9])]; [(0, mkbuf 2 [8; 9])]]
+  /\ map acols (s_run [] alias_ops)
+       = [[(0, mkbuf 2 [8; 9])]; [(0, mkbuf 2 [1; 2])]; [(0, mkbuf 2 [8; 9])]].
+Proof. exact alias_refuted. Qed.
+Print Assumptions C16_alias_refuted.
+
+(* set_selection on rows, composed with the operation itself *)
+Theorem C16_set_selection_op_rows : forall s E o Ea a sl s' o' ps,
+  repr s E o -> eqlen E o -> repr s Ea a -> eqlen Ea a -> compat o a ->
+  set_selection s o a sl = ((s', o'), Done) -> sel_pos (olen o) sl = Ok ps ->
+  exists E', o' = o /\ repr s' E' o
+    /\ forall i, (i < Z.to_nat (olen o))%nat ->
+         row E' (keys (fields o)) i =
+           match last_idx ps i with
+           | Some j => row Ea (keys (fields o)) (if Nat.eqb (Z.to_nat (olen a)) (length ps) then j else 0%nat)
+           | None => row E (keys (fields o)) i
+           end.
+Proof. exact set_selection_op_rows. Qed.
+Print Assumptions C16_set_selection_op_rows.
